@@ -26,11 +26,29 @@
   (`self / other.data[0]`, `*self % v`) is `.divzero`.  A primitive scalar is still an `Int`/`Nat`
   with a type tag `STy` (that is what it is); only the big operands changed representation.
   NB.Props.C10D proves every definition here equal to the value-level leaf on `val` of its operands.
+
+  Second part (“the remaining forms”): the shift forms, the Pow forms and the canonical big ∘ big operations
+  (incl. `checked_*` and the big items of `Sum` / `Product`) routed to the digit-level operator models:
+
+    `<< >> <<= >>=` by any of the 12 amount types   `NB.C07.biguintShl/biguintShr`, `NB.C07.BigInt.shl/shlAssign/
+                                                    shr/shrAssign` (negative-amount panic, capacity overflow,
+                                                    `shr_round_down`)                  (Model/Shift.lean, C07)
+    `Pow<u8…u128|usize>`, `Pow<&BigUint>`           `NB.PowD.powPrim/powBig/bigintPow/bigintPowBig`, 4 operand forms
+                                                                                       (Model/PowD.lean, C12)
+    `&a + &b`, `&a - &b`, `checked_sub`             `NB.addRef/subRef/checkedSub`, `NB.BigInt.add/sub`   (C01)
+    `&a * &b`                                       `NB.Mul.mulRef`, `NB.Mul.bigintMul`                  (C02)
+    `&a / &b`, `&a % &b`, `checked_div`             `NB.divRef/remRef/checkedDiv`, `NB.BigInt.div/rem/checkedDiv` (C03)
+    `&a & &b`, `&a | &b`, `&a ^ &b`                 `NB.C07.andRef/orRef/xorRef`, `NB.C07.BigInt.andRef/orRef/xorRef` (C07)
+
+  The second part of NB.Props.C10D proves them equal to the value-level forms of NB.Model.Scalar / NB.Drv.C10.
 -/
 import NB.Base
 import NB.Model.AddSub
 import NB.Model.Mul
 import NB.Model.Div
+import NB.Model.Bits
+import NB.Model.Shift
+import NB.Model.PowD
 import NB.Model.Convert
 import NB.Model.Scalar
 namespace NB.SD
@@ -289,5 +307,111 @@ def iScalarForm (P : Params) (op : AOp) (pos : SPos) (t : STy) (a : BigInt) (s :
     | .rem, .bigScalar => iRemU p P a v.toNat
     | .rem, .assign => iRemAssignU p P a v.toNat
     | .rem, .scalarBig => uRemI p v.toNat a
+
+/-! ## shift forms (src/biguint/shift.rs `impl_shift!`, src/bigint/shift.rs `impl_shift!`)
+
+The amount `k : Int` is the mathematical value of the primitive amount (any of the 12 types, no promotion:
+`biguint_shl<T: PrimInt>` is generic).  `Shl<T> for BigUint` / `for &BigUint` are `biguint_shl(Cow::Owned | Borrowed, rhs)`,
+`ShlAssign<T>` is `*self = mem::replace(self, ZERO) << rhs`: one digit-level function for the three. -/
+
+/-- `BigUint << k`, `&BigUint << k`, `BigUint <<= k` (`left`) and `>>`, `>>=` -/
+def uShiftForm (left : Bool) (a : List Nat) (k : Int) : Except Panic (List Nat) :=
+  if left then NB.C07.biguintShl a k else NB.C07.biguintShr a k
+
+/-- `BigInt << k` / `&BigInt << k` (`from_biguint(sign, data << rhs)`), `BigInt <<= k` (`self.data <<= rhs`),
+    `BigInt >> k` (`shr_round_down`, `data >> rhs`, `+ 1u8`), `BigInt >>= k` -/
+def iShiftForm (P : Params) (left assign : Bool) (a : BigInt) (k : Int) : Except Panic BigInt :=
+  match left, assign with
+  | true, false => NB.C07.BigInt.shl a k
+  | true, true => NB.C07.BigInt.shlAssign a k
+  | false, false => NB.C07.BigInt.shr P a k
+  | false, true => NB.C07.BigInt.shrAssign P a k
+
+/-! ## canonical big ∘ big operations (the `&a ∘ &b` forms; every val/ref/assign permutation is compared
+    with them in-process by the harness).  `op`: 1 + 2 - 3 * 4 / 5 % 6 & 7 | 8 ^ (the numbering of the form ids). -/
+
+/-- `&BigUint ∘ &BigUint` -/
+def uBinForm (P : Params) (op : Nat) (a b : List Nat) : Except Panic (List Nat) :=
+  match op with
+  | 1 => .ok (addRef P a b)
+  | 2 => subRef P a b
+  | 3 => Mul.mulRef P a b
+  | 4 => divRef P a b
+  | 5 => remRef P a b
+  | 6 => .ok (NB.C07.andRef a b)
+  | 7 => .ok (NB.C07.orRef a b)
+  | 8 => .ok (NB.C07.xorRef a b)
+  | _ => .error (.internal "op")
+
+/-- `&BigInt ∘ &BigInt` -/
+def iBinForm (P : Params) (op : Nat) (a b : BigInt) : Except Panic BigInt :=
+  match op with
+  | 1 => BigInt.add P a b
+  | 2 => BigInt.sub P a b
+  | 3 => Mul.bigintMul P a b
+  | 4 => BigInt.div P a b
+  | 5 => BigInt.rem P a b
+  | 6 => NB.C07.BigInt.andRef a b
+  | 7 => NB.C07.BigInt.orRef a b
+  | 8 => NB.C07.BigInt.xorRef a b
+  | _ => .error (.internal "op")
+
+/-- `CheckedAdd/Sub/Mul/Div for BigUint` (`op`: 1 checked_add … 4 checked_div): `Some(self.add(v))`,
+    `match self.cmp(v) { Less => None, Equal => Some(ZERO), Greater => Some(self.sub(v)) }`, `Some(self.mul(v))`,
+    `if v.is_zero() { None } else { Some(self.div(v)) }` -/
+def uCheckedForm (P : Params) (op : Nat) (a b : List Nat) : Except Panic (Option (List Nat)) :=
+  match op with
+  | 1 => .ok (some (addRef P a b))
+  | 2 => checkedSub P a b
+  | 3 => (Mul.mulRef P a b).map some
+  | 4 => checkedDiv P a b
+  | _ => .error (.internal "op")
+
+/-- `CheckedAdd/Sub/Mul/Div for BigInt` -/
+def iCheckedForm (P : Params) (op : Nat) (a b : BigInt) : Except Panic (Option BigInt) :=
+  match op with
+  | 1 => (BigInt.add P a b).map some
+  | 2 => (BigInt.sub P a b).map some
+  | 3 => (Mul.bigintMul P a b).map some
+  | 4 => BigInt.checkedDiv P a b
+  | _ => .error (.internal "op")
+
+/-! ## Sum / Product (`impl_sum_iter_type!`, `impl_product_iter_type!`): `iter.fold(ZERO, <Big>::add)`,
+    `iter.fold(One::one(), <Big>::mul)`; an item is a big value or a primitive scalar (`Add<T>` / `Mul<T>` forms) -/
+
+inductive Item (β : Type) where
+  | big (b : β)
+  | sc (t : STy) (s : Int)
+
+/-- one fold step on a BigUint accumulator: `acc + item` (`self += &other`) / `acc * item` -/
+def uIterStep (P : Params) (sum : Bool) (acc : List Nat) : Item (List Nat) → Except Panic (List Nat)
+  | .big b => if sum then .ok (addAssign P acc b) else Mul.mulRef P acc b
+  | .sc t s => uScalarForm P (if sum then .add else .mul) .bigScalar t acc s
+
+def uIterFold (P : Params) (sum : Bool) : List Nat → List (Item (List Nat)) → Except Panic (List Nat)
+  | acc, [] => .ok acc
+  | acc, it :: rest =>
+    match uIterStep P sum acc it with
+    | .error e => .error e
+    | .ok acc' => uIterFold P sum acc' rest
+
+/-- `Sum` / `Product` for BigUint: the fold from `ZERO` / `One::one()` -/
+def uIterForm (P : Params) (sum : Bool) (items : List (Item (List Nat))) : Except Panic (List Nat) :=
+  uIterFold P sum (if sum then [] else [1]) items
+
+def iIterStep (P : Params) (sum : Bool) (acc : BigInt) : Item BigInt → Except Panic BigInt
+  | .big b => if sum then BigInt.add P acc b else Mul.bigintMul P acc b
+  | .sc t s => iScalarForm P (if sum then .add else .mul) .bigScalar t acc s
+
+def iIterFold (P : Params) (sum : Bool) : BigInt → List (Item BigInt) → Except Panic BigInt
+  | acc, [] => .ok acc
+  | acc, it :: rest =>
+    match iIterStep P sum acc it with
+    | .error e => .error e
+    | .ok acc' => iIterFold P sum acc' rest
+
+/-- `Sum` / `Product` for BigInt -/
+def iIterForm (P : Params) (sum : Bool) (items : List (Item BigInt)) : Except Panic BigInt :=
+  iIterFold P sum (if sum then ⟨.nosign, []⟩ else ⟨.plus, [1]⟩) items
 
 end NB.SD
